@@ -144,6 +144,12 @@ def r2(ctx):
             ok = (isinstance(asg, ast.Assign) and len(asg.targets) == 1 and isinstance(asg.targets[0], ast.Name)
                   and asg.targets[0].id == "rng" and "rng" in f.params
                   and isinstance(iff, ast.If) and U(iff.test) == "rng is None" and asg in iff.body)
+            if not ok and isinstance(asg, ast.IfExp) and "rng" in f.params:
+                # rng = default_rng() if rng is None else rng   /   rng = rng if rng is not None else default_rng()
+                t = U(asg.test).replace(" ", "")
+                outer = par.get(asg)
+                ok = ((t == "rngisNone" and asg.body is c and U(asg.orelse) == "rng") or (t == "rngisnotNone" and asg.orelse is c and U(asg.body) == "rng")) \
+                    and isinstance(outer, ast.Assign) and U(outer.targets[0]) == "rng"
             ctx.check("R2", f"{f.site()}::default_rng()", ok, "unseeded generator only as the `if rng is None` fallback of parameter rng",
                       "an unseeded default_rng() is created outside the `if rng is None` fallback of an `rng` parameter: output cannot be reproduced")
 
